@@ -43,7 +43,7 @@ def gen(rng, ctx):
         return gen_star(rng)
     ni = rng.randint(1, 5 if not big else 7)
     ng = rng.randint(1, 9 if not big else 16)
-    cd = G.rand_circuit(rng, ni, ng, max_fanin=5, ensure_loaded=rng.random() < 0.6, p_const=0.2)
+    cd = G.rand_circuit(rng, ni, ng, max_fanin=5, ensure_loaded=rng.random() < 0.6, p_const=0.2, allow_x=rng.random() < 0.4)
     kind = "dag"
     if rng.random() < 0.3:
         cd = G.add_blackboxes(rng, cd, rng.randint(1, 2), p_unconnected=0.2)
@@ -177,6 +177,8 @@ def queries(case, ctx, c, singles, lists, phase=""):
         ctx.trivial()
     if not phase:
         ctx.count(f"class:{case['kind']}")
+        if net.has_x():
+            ctx.count("with_x_constant")
         if case.get("star"):
             ctx.count(f"star:{case['star']}")
     cyc = D.has_cycle(succs)
@@ -308,5 +310,5 @@ def queries(case, ctx, c, singles, lists, phase=""):
 
 
 def gates(counters, table, tier):
-    need = ["requery_after:rewire", "requery_after:relabel", "requery_after:connect", "class:dag", "class:dag+bb", "class:cyclic", "cmp:levelize", "cmp:kcuts", "reconv:nonempty", "reconv:empty", "cmp:depth_rejects_cyclic", "cmp:fanout_depthL", "cmp:fanin_depth1", "kcuts:nontrivial_sets", "star:branch_to_branch", "star:none", "star:through", "graph_with_pins_but_no_registry"]
+    need = ["requery_after:rewire", "requery_after:relabel", "requery_after:connect", "class:dag", "class:dag+bb", "class:cyclic", "cmp:levelize", "cmp:kcuts", "reconv:nonempty", "reconv:empty", "cmp:depth_rejects_cyclic", "cmp:fanout_depthL", "cmp:fanin_depth1", "kcuts:nontrivial_sets", "star:branch_to_branch", "star:none", "star:through", "graph_with_pins_but_no_registry", "with_x_constant"]
     return [f"class {k} never observed" for k in need if counters.get(k, 0) < 5]
